@@ -5,7 +5,8 @@ Reads the *source text* of /repo/lcapy/laplace.py, lcapy/transformer.py and lcap
 coq/theory/LaplaceModel.v filled with the formulas as written in the source.
 
 Translated (arithmetic, as written):
-  LaplaceTransformer.term            `return const / s` (expr == 1), `return const / (s - arg)` (exp(alpha t))
+  LaplaceTransformer.term            `return const / s` (expr == 1), `return const / (s - arg)` (exp(alpha t)),
+                                     the sifting branch DiracDelta(a t + b) * v(..): const * v(t0) * exp(-s t0) / abs(scale)
   LaplaceTransformer.sin_cos         the cos -> phi + pi/2 rewrite, tau = -zeta (negative -> 0), phi += omega*tau,
                                      the expression E, the factors exp(-tau s), exp(alpha tau), exp(beta),
                                      and every `if len(factors) > <n>: raise` guard (-> gen_sc_guard)
@@ -16,6 +17,7 @@ Translated (arithmetic, as written):
 Pinned (compared verbatim after `ast.unparse`; their behaviour is the hand model LaplaceModel.v, which the
 correspondence run ties to the code): the factor-parsing statements of sin_cos, the guards of func /
 derivative_undef, the order of the branch tests of `term`, `LaplaceTransformer.key`,
+`LaplaceTransformer.clip_heaviside` and the single-function branch of term,
 `UnilateralForwardTransformer.remove_heaviside/doit`, `utils.scale_shift` coefficient indices.
 Anything outside the recognised subset raises Untranslatable(file:line) and is reported by the check as a
 broken obligation.
@@ -163,6 +165,9 @@ DOIT_BODY = ("if expr.is_Piecewise and expr.args[0].args[1].has(var >= 0):\n    
              "self.cache[key] = result\nreturn const * result")
 
 
+CLIP_BODY = N("def value(e):\n    try:\n        (scale, shift) = scale_shift(e.args[0], t)\n    except ValueError:\n        return e\n"
+              "    if scale.is_positive and shift.is_positive:\n        return sym.S.One\n    return e\n"
+              "return expr.replace(lambda e: isinstance(e, sym.Heaviside), value)")
 SINCOS_PINNED = [N(x) for x in SINCOS_PINNED]
 TAU_ORELSE = N(TAU_ORELSE)
 TERM_TESTS = [N(x) for x in TERM_TESTS]
@@ -241,10 +246,45 @@ class Translator:
                         or not isinstance(b[1].body[0], ast.Return) or b[1].orelse or st.orelse):
                     fail(st, 'unexpected body of the exp(alpha t) branch')
                 got['exp'] = ex.tr(b[1].body[0].value)
+            if isinstance(st, ast.If) and U(st.test) == 'expr.is_Function and expr.args[0].has(t)':
+                want = ("result = self.function(expr, t, s)\nif result is not None:\n    return result * const\n"
+                        "expr = expand_functions(expr, t)\nexpr = self.clip_heaviside(expr, t)")
+                if '\n'.join(U(x) for x in st.body) != N(want) or st.orelse:
+                    fail(st, 'unexpected body of the single-function branch (function / expand_functions / clip_heaviside)')
             if isinstance(st, ast.If) and U(st.test) == 'len(terms) > 1':
                 want = ("result = 0\nfor term in terms:\n    result += self.term(term, t, s, **kwargs)\nreturn const * result")
                 if '\n'.join(U(x) for x in st.body) != N(want):
                     fail(st, 'unexpected body of the term-splitting branch')
+        # the sifting branch  Mul(DiracDelta(a t + b), v(..))  inside `if expr.has(AppliedUndef)`
+        und = [st for st in self.body(fn) if isinstance(st, ast.If) and U(st.test) == 'expr.has(AppliedUndef)']
+        if len(und) != 1 or not und[0].body or not isinstance(und[0].body[0], ast.If):
+            fail(fn, 'unexpected AppliedUndef branch')
+        sb = und[0].body[0]
+        want_test = N('expr.is_Mul and len(expr.args) == 2 and isinstance(expr.args[0], sym.DiracDelta) and '
+                      'isinstance(expr.args[1], (AppliedUndef, sym.Subs))')
+        if U(sb.test) != want_test or sb.orelse:
+            fail(sb, 'unexpected test of the DiracDelta * function branch')
+        b = sb.body
+        if (len(b) != 4 or U(b[0]) != N('(scale, shift) = scale_shift(expr.args[0].args[0], t)')
+                or not isinstance(b[1], ast.Assign) or U(b[1].targets[0]) != 't0'
+                or U(b[2]) != N('if t0.is_negative:\n    return 0') or not isinstance(b[3], ast.Return)):
+            fail(sb, 'unexpected body of the DiracDelta * function branch')
+        ex2 = Expr({'const': ('K', 'const'), 's': ('K', 's'), 'scale': ('K', 'scale'), 'shift': ('K', 'shift'),
+                    'expr.args[1].subs': ('opaque', 'X')})
+        t0 = ex2.tr(b[1].value)
+        ex2.env['t0'] = ('K', 't0')
+        got['sift'] = '  let t0 := %s in\n  %s' % (t0, ex2.tr(b[3].value))
+        rest_und = [U(x) for x in und[0].body[1:]]
+        want_und = [N(x) for x in (
+            "if expr.has(sym.Derivative):\n    return self.derivative_undef(expr, t, s, **kwargs) * const",
+            "factors = expr.as_ordered_factors()",
+            "if len(factors) == 1:\n    return const * self.func(factors[0], t, s)\nelif len(factors) > 2:\n    self.error('Cannot handle product')",
+            "foo = factors[1]",
+            "if foo.is_Function and foo.func == sym.exp and foo.args[0].has(t):\n    (scale, shift) = scale_shift(foo.args[0], t)\n"
+            "    if shift == 0:\n        result = self.func(factors[0], t, s)\n        return const * result.subs(s, s - scale)",
+            "self.error('Cannot handle product')")]
+        if rest_und != want_und:
+            fail(und[0], 'the AppliedUndef branch of term changed')
         # tail: the integrate branches
         tail = [U(st) for st in self.body(fn) if not isinstance(st, ast.If)]
         want_tail = [N('(const, expr) = factor_const(expr, t)'), 'terms = expr.expand(deep=False).as_ordered_terms()',
@@ -253,6 +293,7 @@ class Translator:
             fail(fn, 'unexpected straight-line statements in term: %r' % tail)
         self.defs['gen_const'] = ('(const s : K) : K', got['const'])
         self.defs['gen_exp'] = ('(const arg s : K) : K', got['exp'])
+        self.defs['gen_sift'] = ('(const X scale shift s : K) : K', got['sift'])
 
     # ---- sin_cos ------------------------------------------------------------------------------
     def tr_sincos(self):
@@ -485,6 +526,11 @@ class Translator:
 
     # ---- pinned pieces -------------------------------------------------------------------------
     def pin_key(self):
+        if 'clip_heaviside' not in self.meth:
+            raise Untranslatable('lcapy/laplace.py: LaplaceTransformer.clip_heaviside not found')
+        got = '\n'.join(U(x) for x in self.body(self.meth['clip_heaviside']))
+        if got != CLIP_BODY:
+            fail(self.meth['clip_heaviside'], 'clip_heaviside changed (model: Heaviside(a t + b) with a > 0 and b > 0 becomes 1)')
         fn = self.meth['key']
         b = self.body(fn)
         if not b or not isinstance(b[0], ast.Return) or U(b[0].value) != KEY_RETURN:
@@ -529,7 +575,7 @@ class Translator:
 
     # ---- output --------------------------------------------------------------------------------
     ORDER = ['gen_const', 'gen_exp', 'gen_sincos', 'gen_sc_guard', 'gen_rect', 'gen_tri', 'gen_ramp', 'gen_rstep',
-             'gen_func', 'gen_deriv', 'gen_integ', 'gen_conv']
+             'gen_func', 'gen_deriv', 'gen_integ', 'gen_conv', 'gen_sift']
 
     def coq(self):
         out = ['(* GENERATED by tools/tr_laplace.py from lcapy/laplace.py (sha256 %s), lcapy/transformer.py (%s),' % (
@@ -539,7 +585,7 @@ class Translator:
             'Local Open Scope F_scope.', 'Section Gen.', 'Variable K : fld.', 'Variable V : lenv K.',
             'Notation ex := (l_ex K V).', 'Notation sn := (l_sn K V).', 'Notation cs := (l_cs K V).',
             'Notation fabs := (l_fabs K V).', 'Notation pi_ := (l_pi K V).', 'Notation isr := (l_isr K V).', 'Notation neg := (l_neg K V).',
-            'Notation Fn := (l_Fn K V).', 'Notation Ic := (l_Ic K V).', '']
+            'Notation Fn := (l_Fn K V).', 'Notation Ic := (l_Ic K V).', 'Notation Fv := (l_Fv K V).', '']
         for nm in self.ORDER:
             sig, body = self.defs[nm]
             out.append('Definition %s %s :=\n%s.\n' % (nm, sig, body if body.startswith('  ') else '  ' + body))
